@@ -1,2 +1,226 @@
-(* C03 — property theorems (being built). *)
-From Klog Require Import Base.Prelude Model.Reconcile Model.Commands.
+(* C03 — mutating commands touch only the lines they are defined to change.
+   Property theorems only; each is closed by [exact <lemma>] and followed by Print Assumptions.
+   Model: Model/Reconcile.v (insert, update_line, replace_placeholder, replace_value_token, the operations and the two
+   creators) after fix F7, and Model/Commands.v (exec_simple, pause_reconcile).
+   The relation (Proofs/Reconcile.v):
+     edit ch c n before after   every line of [before] is in [after], in the original order, with its text and its
+                                line ending — except that at most [c] lines have their text rewritten as [ch] allows,
+                                and that a line WITHOUT ending may gain one when lines are added directly after it;
+                                everything else in [after] is added lines, in at most [n] contiguous blocks
+     rewrites                   compositions of: the leftmost run of `?` replaced / the value token (first token after
+                                the leading blanks) replaced / text appended at the end
+   C03_edit_embeds spells the relation out line by line; the *_shape theorems give the exact result of every
+   operation, of which the edit statements are the summary.
+   Stated on line lists: the file that is written is [text_of_lines after], the lines the reconciler starts from are
+   the file's own lines (C03_start_lines), or none for a file of blank lines only — the one case in which the
+   property allows wholesale replacement. *)
+From Klog Require Import Base.Prelude Model.Calendar Model.Values Model.Record Model.Lines Model.Parser
+  Model.Reconcile Model.Commands Proofs.Style Proofs.Reconcile Proofs.Commands.
+Open Scope Z_scope.
+
+(* 1. insert: the old lines with the block of new lines spliced in at [idx]; the line before the block gets the
+      style's line ending if it had none *)
+Theorem C03_insert_splice : forall st idx texts ls ls', insert st idx texts ls = Ok ls' ->
+  exists pre post, ls = pre ++ post /\ zlen pre = idx /\
+    ls' = give_ending_to_last (sp_val (st_eol st)) pre ++ map (mk_inserted st) texts ++ post.
+Proof. exact insert_splice. Qed.
+Print Assumptions C03_insert_splice.
+
+Theorem C03_insert_defined : forall st idx texts ls, 0 <= idx <= zlen ls ->
+  insert st idx texts ls =
+    Ok (give_ending_to_last (sp_val (st_eol st)) (firstn (Z.to_nat idx) ls) ++ map (mk_inserted st) texts ++ skipn (Z.to_nat idx) ls).
+Proof. exact insert_ok. Qed.
+Print Assumptions C03_insert_defined.
+
+Theorem C03_give_ending : forall eol pre l,
+  give_ending_to_last eol [] = [] /\
+  give_ending_to_last eol (pre ++ [l]) = pre ++ [gain eol l] /\
+  l_text (gain eol l) = l_text l /\ (l_ending l <> [] -> gain eol l = l) /\
+  (l_ending l = [] -> gain eol l = {| l_text := l_text l; l_ending := eol |}).
+Proof. intros. split; [reflexivity|]. split; [apply give_ending_snoc|]. split; [apply gain_text|]. split; [apply gain_ending|apply gain_open]. Qed.
+Print Assumptions C03_give_ending.
+
+(* position by position: all original lines survive in order; only line idx-1 may change, and only by gaining an
+   ending; the inserted lines are contiguous *)
+Theorem C03_insert_positions : forall st idx texts ls ls', insert st idx texts ls = Ok ls' ->
+  let i := Z.to_nat idx in let n := length texts in
+  length ls' = (length ls + n)%nat /\
+  (forall k, (S k < i)%nat -> nth_error ls' k = nth_error ls k) /\
+  (forall k l, S k = i -> nth_error ls k = Some l -> nth_error ls' k = Some (gain (sp_val (st_eol st)) l)) /\
+  (forall k t, nth_error texts k = Some t -> nth_error ls' (i + k) = Some (mk_inserted st t)) /\
+  (forall k, (i <= k)%nat -> nth_error ls' (k + n) = nth_error ls k).
+Proof. exact insert_positions. Qed.
+Print Assumptions C03_insert_positions.
+
+(* 2. the two token rewrites *)
+Theorem C03_replace_placeholder : forall pre qs post repl,
+  forallb (fun c => negb (is_q c)) pre = true -> qs <> [] -> forallb is_q qs = true ->
+  (match post with [] => True | x :: _ => is_q x = false end) ->
+  replace_placeholder (pre ++ qs ++ post) repl = pre ++ repl ++ post.
+Proof. exact replace_placeholder_app. Qed.
+Print Assumptions C03_replace_placeholder.
+
+Theorem C03_replace_placeholder_total : forall s repl,
+  (forallb (fun c => negb (is_q c)) s = true /\ replace_placeholder s repl = s) \/
+  (exists pre qs post, placeholder_split s pre qs post /\ replace_placeholder s repl = pre ++ repl ++ post).
+Proof. exact replace_placeholder_spec. Qed.
+Print Assumptions C03_replace_placeholder_total.
+
+(* after F7: exactly the first token after the leading blanks is rewritten *)
+Theorem C03_replace_value_token : forall s repl,
+  exists lead tok rest, token_split s lead tok rest /\ replace_value_token s repl = lead ++ repl ++ rest.
+Proof. exact replace_value_token_spec. Qed.
+Print Assumptions C03_replace_value_token.
+
+(* 3. what [edit] means, line by line *)
+Theorem C03_edit_embeds : forall ch c n b a, edit ch c n b a -> embeds ch b a.
+Proof. exact edit_embeds. Qed.
+Print Assumptions C03_edit_embeds.
+
+Theorem C03_edit_trans : forall c1 n1 c2 n2 a b d,
+  edit rewrites c1 n1 a b -> edit rewrites c2 n2 b d -> edit rewrites (c1 + c2) (n1 + n2) a d.
+Proof. exact medit_trans. Qed.
+Print Assumptions C03_edit_trans.
+
+(* 4. the operations *)
+Theorem C03_append_entry_minimal : forall r new r', append_entry r new = ROk r' -> edit rewrites 0 1 (rc_lines r) (rc_lines r').
+Proof. exact append_entry_minimal. Qed.
+Print Assumptions C03_append_entry_minimal.
+
+Theorem C03_append_entry_shape : forall r new r', append_entry r new = ROk r' ->
+  exists pre post, rc_lines r = pre ++ post /\ zlen pre = rc_last r /\
+    r' = with_lines r (give_ending_to_last (sp_val (st_eol (rc_style r))) pre
+                       ++ map (mk_inserted (rc_style r)) (to_multiline [] new) ++ post).
+Proof. exact append_entry_shape. Qed.
+Print Assumptions C03_append_entry_shape.
+
+Theorem C03_start_open_range_minimal : forall r start fmt summary r', start_open_range r start fmt summary = ROk r' ->
+  edit rewrites 0 1 (rc_lines r) (rc_lines r').
+Proof. exact start_open_range_minimal. Qed.
+Print Assumptions C03_start_open_range_minimal.
+
+(* close: the placeholder on the value line; text appended to the entry's last line; further summary lines inserted
+   directly after it — at most two rewritten lines, at most one block *)
+Theorem C03_close_open_range_minimal : forall r end_ fmt add r', close_open_range r end_ fmt add = ROk r' ->
+  edit rewrites 2 1 (rc_lines r) (rc_lines r').
+Proof. exact close_open_range_minimal. Qed.
+Print Assumptions C03_close_open_range_minimal.
+
+Theorem C03_close_open_range_shape : forall r end_ fmt add r', close_open_range r end_ fmt add = ROk r' ->
+  let oi := find_open_index (rc_record r) in
+  oi <> -1 /\
+  exists es', end_first_open (rec_entries (rc_record r)) end_ = Some (Some es') /\
+  let value_line := rc_last r - count_lines (skipn (Z.to_nat oi) es') in
+  exists pre l post, rc_lines r = pre ++ l :: post /\ zlen pre = value_line /\
+  let l1 := {| l_text := replace_placeholder (l_text l) (end_text_of r end_ fmt); l_ending := l_ending l |} in
+  let r1 := with_lines (with_record r (set_entries (rc_record r) es')) (pre ++ l1 :: post) in
+  concatenate_summary r1 oi value_line add = ROk r'.
+Proof. exact close_open_range_shape. Qed.
+Print Assumptions C03_close_open_range_shape.
+
+Theorem C03_concatenate_summary_shape : forall r ei el add r', concatenate_summary r ei el add = ROk r' ->
+  exists e, nth_error (rec_entries (rc_record r)) (Z.to_nat ei) = Some e /\
+  let last_line := el + zlen (e_summary e) - 1 in
+  match add with
+  | [] => r' = r
+  | a0 :: more =>
+    exists pre l post, rc_lines r = pre ++ l :: post /\ zlen pre = last_line /\
+    let l' := {| l_text := l_text l ++ sep_for a0 ++ a0; l_ending := l_ending l |} in
+    match more with
+    | [] => r' = with_lines r (pre ++ l' :: post)
+    | _ => r' = with_lines r ((pre ++ [gain (sp_val (st_eol (rc_style r))) l'])
+                               ++ map (mk_inserted (rc_style r)) (map (fun s => (s, 2%nat)) more) ++ post)
+    end
+  end.
+Proof. exact concatenate_summary_shape. Qed.
+Print Assumptions C03_concatenate_summary_shape.
+
+Theorem C03_extend_pause_minimal : forall r inc r', extend_pause r inc = ROk r' -> edit rewrites 1 0 (rc_lines r) (rc_lines r').
+Proof. exact extend_pause_minimal. Qed.
+Print Assumptions C03_extend_pause_minimal.
+
+Theorem C03_extend_pause_shape : forall r inc r', extend_pause r inc = ROk r' ->
+  find_open_index (rc_record r) <> -1 /\
+  let pi := find_last_idx is_pause (rec_entries (rc_record r)) 0 (-1) in
+  pi <> -1 /\
+  exists pe ext, nth_error (rec_entries (rc_record r)) (Z.to_nat pi) = Some pe /\
+    dur_plus (entry_minutes pe) inc = Ok ext /\
+    (ext = 0 -> r' = r) /\
+    (ext <> 0 ->
+     exists pre l post, rc_lines r = pre ++ l :: post /\
+       zlen pre = rc_last r - count_lines (skipn (Z.to_nat pi) (rec_entries (rc_record r))) /\
+       r' = with_lines r (pre ++ {| l_text := replace_value_token (l_text l) (print_duration (mk_dur ext));
+                                    l_ending := l_ending l |} :: post)).
+Proof. exact extend_pause_shape. Qed.
+Print Assumptions C03_extend_pause_shape.
+
+Theorem C03_append_pause_minimal : forall tags_of r summary append_tags r', append_pause tags_of r summary append_tags = ROk r' ->
+  edit rewrites 0 1 (rc_lines r) (rc_lines r').
+Proof. exact append_pause_minimal. Qed.
+Print Assumptions C03_append_pause_minimal.
+
+(* the creators *)
+Theorem C03_at_record_lines : forall d rs bs rc, reconciler_at_record d rs bs = Some rc -> rc_lines rc = flatten_blocks bs.
+Proof. exact at_record_lines. Qed.
+Print Assumptions C03_at_record_lines.
+
+Theorem C03_new_record_minimal : forall d fmt should summary rs bs rc,
+  reconciler_for_new_record d fmt should summary rs bs = Ok rc -> edit rewrites 0 1 (flatten_blocks bs) (rc_lines rc).
+Proof. exact new_record_minimal. Qed.
+Print Assumptions C03_new_record_minimal.
+
+(* 5. whole commands: track / start / create add ONE block (a new record and its first entry are one block) and
+      rewrite nothing; stop rewrites at most two lines (of one entry) and adds at most one block; switch = stop + start;
+      (the budget of pause, (1, 1), is per write: C03_pause_minimal) *)
+Theorem C03_exec_minimal : forall now cfg c file file', exec_simple now cfg c file = COk file' ->
+  exists rs bs after, parse_text file = Ok (Parsed rs bs) /\ file' = text_of_lines after /\
+    edit rewrites (fst (edit_budget c)) (snd (edit_budget c)) (flatten_blocks bs) after.
+Proof. exact exec_simple_minimal. Qed.
+Print Assumptions C03_exec_minimal.
+
+Theorem C03_pause_minimal : forall now file op file',
+  (forall r r', op r = COk r' -> edit rewrites 1 1 (rc_lines r) (rc_lines r')) ->
+  pause_reconcile now file op = COk file' ->
+  exists rs bs after, parse_text file = Ok (Parsed rs bs) /\ file' = text_of_lines after /\ edit rewrites 1 1 (flatten_blocks bs) after.
+Proof. exact pause_reconcile_minimal. Qed.
+Print Assumptions C03_pause_minimal.
+
+Theorem C03_pause_ops : forall tags_of summary tags inc r r',
+  (lift_r (append_pause tags_of r summary tags) = COk r' -> edit rewrites 1 1 (rc_lines r) (rc_lines r')) /\
+  (lift_r (extend_pause r inc) = COk r' -> edit rewrites 1 1 (rc_lines r) (rc_lines r')).
+Proof. intros. split; [apply pause_append_op|apply pause_extend_op]. Qed.
+Print Assumptions C03_pause_ops.
+
+(* the lines a command starts from are the file's own lines, all of them, unless the file has only blank lines *)
+Theorem C03_start_lines : forall file rs bs, parse_text file = Ok (Parsed rs bs) ->
+  ((exists l, In l (lines_of file) /\ is_blank l = false) -> flatten_blocks bs = lines_of file) /\
+  (Forall (fun l => is_blank l = true) (lines_of file) -> flatten_blocks bs = [] /\ rs = []).
+Proof. exact start_lines. Qed.
+Print Assumptions C03_start_lines.
+
+(* ---- non-vacuity ---- *)
+(* stop with a two-line summary on an open range that already has a continuation line and is the unterminated last
+   entry of the file: two lines rewritten (placeholder; text appended to the last continuation line, which also gains
+   its line ending), one line added *)
+Definition ex_file : bytes := b!"2020-01-01
+  8:00 - ??? a
+    b".
+Definition ex_now : clock := {| now_date := {| c_year := 2020; c_month := 1; c_day := 1 |}; now_h := 9; now_m := 30 |}.
+Definition ex_cfg : config := {| cfg_round := None; cfg_should := None; cfg_dashes := None; cfg_24h := None |}.
+Example ex_stop :
+  exec_simple ex_now ex_cfg (Stop {| a_date := DDefault; a_time := None; a_round := None |} (Some [b!"c"; b!"d"])) ex_file
+  = COk b!"2020-01-01
+  8:00 - 9:30 a
+    b c
+    d
+".
+Proof. vm_cast_no_check (@eq_refl (cresult bytes) (COk b!"2020-01-01
+  8:00 - 9:30 a
+    b c
+    d
+")). Qed.
+
+Example ex_placeholder : replace_placeholder b!"  8:00 - ??? a ?" b!"9:30" = b!"  8:00 - 9:30 a ?".
+Proof. reflexivity. Qed.
+Example ex_token : replace_value_token b!"    -5m foo-bar" b!"-6m" = b!"    -6m foo-bar".
+Proof. reflexivity. Qed.
